@@ -28,7 +28,7 @@ func init() {
 		ID:    "C20",
 		Level: "model_checking",
 		Rule: "product per transaction type of per-field domains (strings: empty, valid, malformed, case variants, U+017F, invalid UTF-8, 10 kB; bytes: absent, empty, 31, zero32, nonzero32, 33, 10 kB; amounts: absent, -1, 0, 1, 2^256-1; integers: 0, 1, max), " +
-			"each message built as wire bytes and decoded by the generated Unmarshal, in 6 states (populated, both paused, default genesis, threshold near 2^32/65, malformed-but-accepted attester strings, negative stored burn limit); all 19 queries with nil request and nil/contradictory/extreme pagination; " +
+			"each message built as wire bytes and decoded by the generated Unmarshal, in 9 states (populated, both paused, default genesis, threshold near 2^32/65, malformed-but-accepted attester strings, negative stored burn limit, token pairs and limits naming an empty / an invalid denom, wrong-length messenger addresses with the nonce counter at 2^64-1 -- the last three only a genesis file can create); all 19 queries with nil request and nil/contradictory/extreme pagination; " +
 			"both message decoders and the verifier over all lengths 0..300; the CLI address parser over all strings of length <=3 over {0,x,1,z,O,U+017F}, a multi-byte character at every byte offset 0..24 of a base58 string, and long inputs; every call under recover(); " +
 			"distinct_nontrivial = distinct (entry point, field-shape vector) classes",
 		Assumptions: []string{"a panic fingerprint is entry point + innermost repository frame (function), not the line"},
@@ -156,7 +156,8 @@ func product(doms [][]dom, f func(names []string, fields []pbField)) {
 	}
 }
 
-var c20States = []string{"populated", "paused", "default-genesis", "huge-threshold", "odd-attesters", "negative-burn-limit"}
+var c20States = []string{"populated", "paused", "default-genesis", "huge-threshold", "odd-attesters", "negative-burn-limit",
+	"odd-pair-empty-denom", "odd-pair-invalid-denom", "odd-messengers-nonce-max"}
 
 func c20Jobs(tier string) []Job {
 	var jobs []Job
@@ -200,8 +201,38 @@ func c20Scenario(state string) (Scenario, []Action) {
 	case "populated":
 		g.PerMessageBurnLimitList = []cctptypes.PerMessageBurnLimit{{Denom: "uusdc", Amount: math.NewInt(1000)}}
 		g.UsedNoncesList = []cctptypes.Nonce{{SourceDomain: 0, Nonce: 5}}
+	case "odd-pair-empty-denom", "odd-pair-invalid-denom":
+		// registry contents only a genesis file can create: every linked pair names a local token that is not a denom
+		odd := map[string]string{"odd-pair-empty-denom": "", "odd-pair-invalid-denom": "UUSDC! not/a denom"}[state]
+		g.TokenPairList = append([]cctptypes.TokenPair{}, g.TokenPairList...)
+		for i := range g.TokenPairList {
+			g.TokenPairList[i].LocalToken = odd
+		}
+		g.PerMessageBurnLimitList = []cctptypes.PerMessageBurnLimit{{Denom: odd, Amount: math.NewInt(5)}}
+	case "odd-messengers-nonce-max":
+		// wrong-length and empty messenger addresses (genesis only) and the outbound counter at its maximum
+		g.TokenMessengerList = []cctptypes.RemoteTokenMessenger{{DomainId: DomEth, Address: distinct32(0xB7)[:31]}, {DomainId: DomAvax, Address: nil},
+			{DomainId: 2, Address: append(distinct32(0xB8), 1)}}
+		g.NextAvailableNonce = &cctptypes.Nonce{Nonce: 1<<64 - 1}
 	}
 	return Scenario{Name: "c20-" + state, Ledger: lg, Genesis: g}, pre
+}
+
+// c20InboundExtremes: validly shaped inbound burn messages with extreme field values.
+func c20InboundExtremes() []struct {
+	name string
+	msg  []byte
+} {
+	max := new(big.Int).Sub(new(big.Int).Lsh(big.NewInt(1), 256), big.NewInt(1))
+	return []struct {
+		name string
+		msg  []byte
+	}{
+		{"inbound-burn-amount0", InboundBurn(DomEth, 78, big.NewInt(0), pad32(UserB.Addr), nil)},
+		{"inbound-burn-amount-max", InboundBurn(DomEth, 79, max, pad32(UserB.Addr), nil)},
+		{"inbound-burn-recipient-ff", InboundBurn(DomEth, 80, big.NewInt(7), bytes.Repeat([]byte{0xFF}, 32), nil)},
+		{"inbound-burn-nonce-max", InboundBurn(1<<32-1, 1<<64-1, big.NewInt(7), pad32(UserB.Addr), nil)},
+	}
 }
 
 var frameRe = regexp.MustCompile(`github\.com/circlefin/noble-cctp/(x/cctp/[\w/]+)\.([\w.()*]+)\(`)
@@ -302,6 +333,10 @@ func c20Msg(r *Run, state, typ string) {
 		}
 		inb := InboundBurn(DomEth, 77, big.NewInt(5), pad32(UserB.Addr), nil)
 		out = append(out, dom{"inbound-burn", func(n int) pbField { return pbBytes(n, inb) }})
+		for _, x := range c20InboundExtremes() {
+			x := x
+			out = append(out, dom{x.name, func(n int) pbField { return pbBytes(n, x.msg) }})
+		}
 		return out
 	}
 	attDom := func(valid []byte) []dom {
@@ -315,6 +350,10 @@ func c20Msg(r *Run, state, typ string) {
 		inb := InboundBurn(DomEth, 77, big.NewInt(5), pad32(UserB.Addr), nil)
 		vi := Attest(inb, signers)
 		out = append(out, dom{"valid-for-inbound", func(n int) pbField { return pbBytes(n, vi) }})
+		for _, x := range c20InboundExtremes() {
+			vx := Attest(x.msg, signers)
+			out = append(out, dom{"valid-for-" + x.name, func(n int) pbField { return pbBytes(n, vx) }})
+		}
 		return out
 	}
 
